@@ -191,6 +191,29 @@ def run(R, tier):
         "ntr_filter": {"EventRegister::preset", "NTransitionCommand"},
         "ptr_filter": {"EventRegister::preset", "PTransitionCommand"},
     }
+    # *CLS is one of the two ways the statement lets an event register be cleared ("since the event register was last read
+    # or cleared"): its effect on both register sets is evaluated here, so it may clear the field by a store of its own as
+    # well as through clear_event
+    from . import c16 as C16
+    cls_ok = False
+    try:
+        hb = C16.handler(uc, "ClsCommand", "event")
+        cls_bad = []
+        for ev_o, ev_q in ((0xFFFF, 0x0001), (0x8000, 0x7FFF), (0x0000, 0x0000)):
+            regs = {"Operation": DM.mk_register(uc, condition=0xA5A5, event=ev_o, enable=0x0FF0, ntr_filter=0x3333, ptr_filter=0xCCCC),
+                    "Questionable": DM.mk_register(uc, condition=0x5A5A, event=ev_q, enable=0xF00F, ntr_filter=0x00FF, ptr_filter=0xFF00)}
+            dev = DM.Dev(esr=0x3C, ese=0x11, sre=0x22, queue=[SymV("e0", "e0")], regs=regs)
+            before = {k: DM.reg_values(uc, c_) for k, c_ in dev.regs.items()}
+            rs = DM.run(deng, hb, dev, DM.handler_args(event=True))
+            after = {k: DM.reg_values(uc, c_) for k, c_ in rs[0][1].regs.items()} if len(rs) == 1 and M.outcome(rs[0][0]) == "Ok" else None
+            if after != {k: dict(v, event=0) for k, v in before.items()}:
+                cls_bad.append("events %#06x/%#06x: %s" % (ev_o, ev_q, after))
+        cls_ok = not cls_bad
+        R.check(cls_ok, "R15.6", "*CLS:registers", "*CLS sets both event registers to 0 and leaves condition, enable and both filters as they were", "; ".join(cls_bad[:2]), where=hb.span)
+    except facts.AnchorLost as e:
+        R.anchor_lost("R15.6", str(e))
+    if cls_ok:
+        allowed["event"] = allowed["event"] | {"ScpiDevice::scpi_cls", "::scpi_cls"}
     n_w = 0
     for body in uc.bodies:
         if "core::fmt::" in (body.impl_trait or "") or "core::clone::Clone" in (body.impl_trait or "") or "core::cmp::" in (body.impl_trait or ""):
